@@ -176,7 +176,12 @@ Proof.
       exists inst, []. rewrite app_nil_r. cbn [rd_pos rd_name rd_val]. split; auto. split; auto.
       apply C. unfold entry. rewrite F. auto.
     + apply sorted_pos_snoc; auto. intros z Hz. cbn [rd_pos]. apply Logok_len. auto.
-  - (* LookupEnd *)
+  - (* LookupEnd: the flight's locked part, in whatever state the store is by now *)
+    unfold lookup_finish. destruct (entry s n) as [e0|] eqn:En.
+    { (* the name has a value: entry kept, only the handle is handed out *)
+      cbn [fst]. split; [constructor; cbn [rst rinst rlog]; auto|cbn [rst]; apply hs_secret_locked].
+      + apply secret_locked_Inv; auto.
+      + intros k e. rewrite entry_secret_locked. apply C. }
     unfold lookup_install. cbn [fst].
     split; [constructor; cbn [rst rinst rlog]; auto|cbn [rst]; intros k Hk; apply hs_secret_locked; auto].
     + apply secret_locked_Inv, Inv_upd_some; auto.
@@ -294,14 +299,31 @@ Proof.
   - left. reflexivity.
 Qed.
 
-Lemma lookup_gives_handle (s : store) n v b t : In n (hs (fst (lookup_install s n v b t))).
+Lemma lookup_gives_handle (s : store) n v b t : In n (hs (fst (lookup_finish s n v b t))).
 Proof.
+  unfold lookup_finish. destruct (entry s n) as [e|] eqn:En.
+  { cbn [fst]. unfold secret_locked.
+    assert (K : known s n = true).
+    { unfold known. unfold entry in En. destruct (find n (m s)); [reflexivity|discriminate]. }
+    rewrite K. destruct (has_handle s n) eqn:H; cbn [fst].
+    - apply mem_In. exact H.
+    - left. reflexivity. }
   unfold lookup_install. cbn [fst]. unfold secret_locked.
   assert (K : known (with_m s (upd n (Some (CE v b t false)) (m s))) n = true).
   { unfold known. cbn [m with_m]. rewrite find_upd_eq. reflexivity. }
   rewrite K. destruct (has_handle _ n) eqn:H; cbn [fst].
   - apply mem_In. exact H.
   - left. reflexivity.
+Qed.
+
+(* a lookup whose answer arrives when the name already has a value (F8 repair): no install - the
+   ghost list, the map and therefore what every handle serves stay as they are *)
+Lemma lookup_end_on_known (x : rstate) n v b t e : entry (rst x) n = Some e ->
+  rinst (rstep x (VLookupEnd n v b t)) = rinst x /\ m (rst (rstep x (VLookupEnd n v b t))) = m (rst x) /\
+  rlog (rstep x (VLookupEnd n v b t)) = rlog x.
+Proof.
+  destruct x as [s inst log]. cbn [rst rstep]. intros E. rewrite E. cbn [rinst rst rlog].
+  destruct (@lookup_finish_known V s n v b t e E) as (M1 & _). auto.
 Qed.
 
 (* a read step logs exactly one entry and is a single step: its value is the latest install *)
